@@ -79,7 +79,7 @@ class C22(Check):
     components["stub"] = COMPONENTS["stub"] + ["file system (substrate.fs.SimFS, no faults)", "calendar (log directory name)"]
     assumptions = ["'update': at each logger run after the first a record is due iff some loggee was updated after the previous record in execution order (not stamp order)",
                    "the final log pass made when the logger is stopped counts as a logger run"]
-    required_probes = ["update-after-logger-same-tick", "same-value-update", "logger-period", "streak", "deck", "logger-restarted"]
+    required_probes = ["update-after-logger-same-tick", "same-value-update", "logger-period", "streak", "deck", "logger-restarted", "deck-empty-mapping", "deck-non-mapping-skipped"]
     quick_runs = 6000
     thorough_runs = 300000
     shrink_fields = ["hist0", "hist1"]
@@ -103,9 +103,20 @@ class C22(Check):
                 for _ in range(g.choice([0, 0, 0, 1, 1, 2])):
                     counter[0] += 1
                     if rule == "deck":
-                        h.append([t, ".sim.v", "@push", {"a": counter[0], "b": -counter[0]}])
+                        r = g.random()
+                        if r < 0.6:
+                            entry = {"a": counter[0], "b": -counter[0]}
+                        elif r < 0.7:
+                            entry = {"a": counter[0]}                      # partial: the missing field stays blank
+                        elif r < 0.8:
+                            entry = {}                                     # empty mapping: a record with every field blank
+                        elif r < 0.88:
+                            entry = {"b": counter[0], "zz": 1}             # extra key ignored
+                        else:
+                            entry = g.choice([None, [], ["hi", "there"], 0])   # not a mapping: skipped, the rest of the deck still logged
+                        h.append([t, ".sim.v", "@push", entry])
                     elif rule == "streak":
-                        h.append([t, ".sim.v", "@append:a", counter[0]])
+                        h.append([t, ".sim.v", "@append:a", counter[0] if g.random() < 0.8 else g.choice([0, 0, -1])])
                     else:
                         path = g.choice([".sim.v", ".sim.v", ".sim.w"])
                         field = g.choice(["a", "a", "b"]) if path == ".sim.v" else "value"
@@ -295,6 +306,11 @@ class C22(Check):
                     streak = []
                 elif rule == "deck":
                     for d in deck:
+                        if not isinstance(d, dict):
+                            out.probe("deck-non-mapping-skipped")
+                            continue
+                        if not d:
+                            out.probe("deck-empty-mapping")
                         records.append((fmt(stamp), fmt(d.get("a", "")), fmt(d.get("b", ""))))
                     deck = []
         return records
